@@ -1573,7 +1573,11 @@ fn main() {
     }
     // how the enumerated sources exercise the alphabet (structural, from the case list)
     let mut by_tk: BTreeMap<String, u64> = BTreeMap::new();
+    let mut structurally_forced = 0u64;
     for c in &cases[..total_cases] {
+        if (1..c.n).any(|gi| c.comps[gi].iter().any(|(_, x)| x.forced())) {
+            structurally_forced += 1;
+        }
         for t in ALL_TK {
             if (1..c.n).any(|gi| c.comps[gi].iter().any(|(_, x)| *x == t)) {
                 *by_tk.entry(t.name().to_string()).or_default() += 1;
@@ -1590,6 +1594,7 @@ fn main() {
     );
     rep.set("counts", serde_json::to_value(&total).unwrap());
     rep.set("cases_using_transform", serde_json::to_value(&by_tk).unwrap());
+    rep.set("cases_with_unstorable_transform_in_source", structurally_forced);
     rep.set("spaces", notes);
     rep.set("samples", samples);
     let skipped = skipped.load(std::sync::atomic::Ordering::Relaxed);
